@@ -83,7 +83,7 @@ def judge(ctx, sc, im):
             lemf = morphy_oracle(lem == 'morphy_init', entries)
         exp = lookup.find_entries(entries, op['form'], op['pos'], op['normalizer'], lemf, op['all_forms'])
         exp_words = sorted([e['_lex'], e['id']] for e in exp)
-        exp_senses = sorted([e['_lex'], s['id']] for e in exp for s in e.get('senses', []))
+        exp_senses = sorted(list(x) for x in lookup.find_senses(entries, op['form'], op['pos'], op['normalizer'], lemf, op['all_forms']))
         spos = {(s_, y['id']): y.get('partOfSpeech') for s_ in S for y in docs_[s_].get('synsets', [])}
         exp_syn = sorted(lookup.find_synsets(entries, spos, op['form'], op['pos'], op['normalizer'], lemf, op['all_forms']))
         where = {a: v for a, v in op.items() if a not in ('k',)}
